@@ -278,6 +278,14 @@ def _par_chunk(ci):
 
 def run_check(prop: str, tier: str, seed: int, fn):
     ctx = Ctx(prop, tier, seed)
+    d = os.path.join(REPLAY_DIR, prop)              # replay files of an earlier run of this tier are stale
+    if os.path.isdir(d):
+        for f in os.listdir(d):
+            if f.startswith(tier + "_"):
+                try:
+                    os.remove(os.path.join(d, f))
+                except OSError:
+                    pass
     try:
         fn(ctx)
     except (MachineryFailure, tlc.TlcError) as e:
